@@ -506,6 +506,8 @@ func check(prop, tier string, seed int64, budget, workers, maxSeeds int, race, n
 	fmt.Printf("verifctl: property=%s tier=%s VERIF_SEED=%d workers=%d budget=%ds build=%.1fs\n", prop, tier, seed, workers, budget, buildS)
 	agg := newAgg()
 	deadline := time.Now().Add(time.Duration(budget) * time.Second)
+	stopFirst := os.Getenv("VERIF_STOP_FIRST") != "" // stop exploring at the first violation (self-tests)
+	stopFindings := loadFindings()
 	var next int64
 	var nmu sync.Mutex
 	batch := 20
@@ -559,7 +561,16 @@ func check(prop, tier string, seed int64, budget, workers, maxSeeds int, race, n
 						wk, wrace = workerRace, true
 						agg.probe("race-build.worker-batches")
 					}
-					end := runWorker(wk, job, wrace, func(rl ResultLine) { done[rl.Seed] = true; agg.add(rl) })
+					end := runWorker(wk, job, wrace, func(rl ResultLine) {
+						done[rl.Seed] = true
+						agg.add(rl)
+						if stopFirst && rl.Verdict != nil && !rl.Verdict.OK && !rl.Verdict.Invalid && matchKnown(stopFindings, prop, rl.Verdict.Class, rl.Verdict.Signature) == nil {
+							// sensitivity sweeps only ask whether anything is found: stop handing out seeds
+							nmu.Lock()
+							deadline = time.Now()
+							nmu.Unlock()
+						}
+					})
 					if end.kind == "done" {
 						// the worker may have stopped early after a violation: hand the rest of the
 						// batch to a fresh process
@@ -587,6 +598,9 @@ func check(prop, tier string, seed int64, budget, workers, maxSeeds int, race, n
 						infra("worker ended (%s) outside a run:\n%s", end.kind, clipTail(end.stderr, 4000))
 					}
 					nmu.Lock()
+					if stopFirst {
+						deadline = time.Now()
+					}
 					if end.kind == "hang" {
 						hangSeeds = append(hangSeeds, cur)
 					} else {
